@@ -114,7 +114,15 @@ func buildVariants3(rng *rand.Rand, s *scene3) (res []variant3, flattenCount int
 		if rng.Intn(3) == 0 {
 			u = append(u, u[rng.Intn(len(u))])
 		}
-		uc := model3d.GroupedTrianglesToCollider(u)
+		// the caller keeps using (here: scrambling) the slice it handed over
+		handed := append([]*model3d.Triangle{}, u...)
+		uc := model3d.GroupedTrianglesToCollider(handed)
+		rng.Shuffle(len(handed), func(i, j int) { handed[i], handed[j] = handed[j], handed[i] })
+		for i := range handed {
+			if i%2 == 0 {
+				handed[i] = handed[0]
+			}
+		}
 		res = append(res, variant3{"GroupedTrianglesToCollider(ungrouped)", uc, uc, u})
 
 		bc := model3d.BVHToCollider(model3d.NewBVHAreaDensity(cp()))
